@@ -7,7 +7,7 @@ from .common import REAL_BUS, STUB_BUS, ASSUME_BUS, viol
 ID = "C10"
 ENGINE = "bussim"
 LEVEL = "exploration"
-RUNS = {"quick": 16000, "thorough": 800000}
+RUNS = {"quick": 30000, "thorough": 1500000}
 BUDGET_S = {"quick": 45, "thorough": 480}
 BATCH = 200
 RULE = ("one run = one bus history (several sources; single-frame, fast-packet incl. incomplete and interleaved, address "
